@@ -124,15 +124,22 @@ def ident(name):
     return re.sub(r"[^A-Za-z0-9]", lambda m: "_%02x" % ord(m.group(0)), name).lower()
 
 
+FN_HASHES = {}
+
+
 def gen_instr(out_src, tier, harnesses, table, last):
     specs = spec_fns()
     mods = {}
     no_oracle = []
     not_item_free = []
+    import hashlib
     for e in table:
         name = e["name"]
         if last[name] is not e:
             continue  # shadowed by a later insert of the same name
+        src_txt = extract.fn_source(e["module"], e["func"].split("::")[-1]) or ""
+        fn_hash = hashlib.sha1((e["func"] + "\n" + src_txt).encode()).hexdigest()[:16]
+        FN_HASHES[name] = fn_hash
         if name not in catalog.CAT:
             not_item_free.append(name)
             continue
@@ -223,6 +230,7 @@ def gen_instr(out_src, tier, harnesses, table, last):
                         "kind": {"NoPanic": "no-panic", "Sem": "semantics", "Frame": "frame", "Twice": "determinism", "Cost": "cost"}[mode_rs],
                         "instruction": name,
                         "function": e["func"],
+                        "fn_hash": fn_hash,
                         "module": e["module"],
                         "shapes": len(part),
                         "cost": round(len(part) * (6 if nvec == 0 else (14 if nvec == 1 else 28)) * {"NoPanic": 0.8, "Sem": 1.0, "Frame": 1.6, "Twice": 2.0, "Cost": 1.0}[mode_rs] * (6 if heavy else (3 if fheavy else 1)) + 8, 1),
@@ -393,6 +401,8 @@ def main():
             if h["harness"] in dur:
                 h["cost"] = dur[h["harness"]]
                 h["cost_source"] = "measured"
+    if os.environ.get("VERIF_WRITE_BASELINE"):
+        json.dump(FN_HASHES, open(os.path.join(HERE, "baseline_fn_hashes.json"), "w"), indent=0, sort_keys=True)
     meta = {
         "tier": tier,
         "seed": seed,
